@@ -278,7 +278,8 @@ def call_class(cost_obj, X, beta, m, n_train=None):
     det.transform_scores(df)
     det.predict(df)
     det.fit(pd.DataFrame(train))
-    # ... and on the SAME fit: calls on another series with an equal index (same length, default RangeIndex) come first; what they computed
+    ts0 = np.asarray(det.transform_scores(df), dtype=float).reshape(-1)       # first call after the refit: nothing of the earlier fit may be reused
+    # ... and on the SAME fit: calls on another series with an equal index (same length, default RangeIndex) in between; what they computed
     # describes that series, not df
     other = pd.DataFrame(np.ascontiguousarray(X[::-1]) * 1.5 + 0.25)
     det.predict(other)
@@ -287,7 +288,7 @@ def call_class(cost_obj, X, beta, m, n_train=None):
     y = det.predict(df)
     cps = np.asarray(y).reshape(-1)
     attr = np.asarray(det.scores, dtype=float).reshape(-1)
-    return float(det.penalty_), ts, attr, cps
+    return float(det.penalty_), [ts0, ts], attr, cps
 
 
 def mclass(m):
@@ -333,7 +334,9 @@ def check_case(ctx, family, spec, X, m, beta, kappa, C, via, n_train=None, fp=No
             beta_used, ts, attr, cps = call_class(cost_obj, X, beta, m, n_train)
             if not close(beta_used, beta):          # the fitted penalty is what the detector minimises with
                 F, best = brute_force(C, n, m, beta_used)
-            findings = judge(C, n, m, beta_used, F, ts, cps)
+            findings = []
+            for which, one in zip(("first transform_scores after the refit: ", "transform_scores after calls on another series: "), ts):
+                findings = findings or [(a, c, which + msg) for a, c, msg in judge(C, n, m, beta_used, F, one, cps)]
             if not findings:
                 findings = [(a, c, ".scores attribute: " + msg) for a, c, msg in judge(C, n, m, beta_used, F, attr, cps)]
     except Exception as e:      # every case is a valid configuration (n >= 2m, m >= cost.min_size, penalty >= 0)
